@@ -380,6 +380,86 @@ def _expected_story_from_send(ss):
 
 
 def mon_payload(ctx, res):
+    found = False
+    for f in _mon_payload(ctx, res):
+        found = True
+        yield f
+    if not found and ctx.obs.exc is None and ctx.case['kind'] in _REUSE_KINDS:
+        yield from _payload_reuse(ctx, res)
+
+
+_REUSE_KINDS = ('StoryAppend', 'StoryInsert', 'EAStoryInsert', 'StoryReplace', 'EAStoryReplace', 'StorySend', 'RunningOrderReplace')
+
+
+def _payload_reuse(ctx, res):
+    """The same message object, merged a second time after the running order that first received it
+    was edited inside the carried stories, must still deliver exactly the content that was sent."""
+    from . import target, gen
+    ns = ctx.ns
+    kind = ctx.case['kind']
+    m, e = target.parse(ns, ctx.msg)
+    ro_a, e = target.parse(ns, ctx.before)
+    o_a = target.step_live(ns, ro_a, m)
+    if o_a.exc is not None or o_a.after is None:
+        return
+    va = tree.RoView(o_a.after)
+    base = _msg_base(ctx.msg)
+    if kind == 'StorySend':
+        carried = [ctx.case['sid']] if va.story(ctx.case['sid']) is not None else []
+    else:
+        src = base.find('element_source') if base.tag == 'roElementAction' else base
+        carried = [tree.child_text(c, 'storyID') for c in src if c.tag == 'story']
+        carried = [c for c in carried if va.story(c) is not None and (kind == 'RunningOrderReplace' or ctx.view.story(c) is None or
+                                                                       c == ctx.case.get('tgt'))]
+    if not carried:
+        return
+    edits = 0
+    for cid in carried:
+        sv = va.story(cid)
+        texts = [gen.msg_item_insert(cid, gen.BLANK, [gen.item_xml('zz9', 0, 'edit')], msg_id=2500)]
+        if sv.item_ids:
+            texts.append(gen.msg_item_delete(cid, [sv.item_ids[0]], msg_id=2501))
+        for t in texts:
+            eo, _ = target.parse(ns, t)
+            oe = target.step_live(ns, ro_a, eo)
+            if oe.exc is None:
+                edits += 1
+    if not edits:
+        return
+    res.extra['reuse_after_edit_histories'] += 1
+    ro_b, e = target.parse(ns, ctx.before)
+    o_b = target.step_live(ns, ro_b, m)          # the same message object again
+    if o_b.exc is not None or o_b.after is None:
+        yield (f'{kind}:reuse-after-edit:raised:{o_b.exc}',
+               f'{_case_str(ctx.case)}: the message object merged again after the first running order was edited raised {o_b.exc}')
+        return
+    vb = tree.RoView(o_b.after)
+    if kind == 'StorySend':
+        exp = _expected_story_from_send(base)
+        got = vb.story(carried[0])
+        g = tree.strip_tail(tree.node(got.elem)) if got is not None else None
+        if g != exp:
+            yield (f'{kind}:reuse-after-edit:content-differs',
+                   f'{_case_str(ctx.case)}: ro1 += msg; items of the sent story edited in ro1; ro2 += the same msg object: the story arriving in ro2 '
+                   f'differs from the sent story: {tree.first_diff(exp, g)}')
+        return
+    src = base.find('element_source') if base.tag == 'roElementAction' else base
+    for c in src:
+        if c.tag != 'story':
+            continue
+        cid = tree.child_text(c, 'storyID')
+        if cid not in carried:
+            continue
+        got = vb.story(cid)
+        e_, g = tree.strip_tail(tree.node(c)), tree.strip_tail(tree.node(got.elem)) if got is not None else None
+        if e_ != g:
+            yield (f'{kind}:reuse-after-edit:content-differs',
+                   f'{_case_str(ctx.case)}: ro1 += msg; items of carried story {cid} edited in ro1; ro2 += the same msg object: story {cid} arriving in ro2 '
+                   f'differs from the message text: {tree.first_diff(e_, g)}')
+            return
+
+
+def _mon_payload(ctx, res):
     obs = ctx.obs
     case = ctx.case
     kind = case['kind']
@@ -479,6 +559,7 @@ def mon_payload(ctx, res):
 
 # ================================================================ C07
 def mon_completion(ctx, res):
+    # (the engine reads ro.completed, repr(ro), ... on the live object before the merge: see touch_before)
     ns = ctx.ns
     obs = ctx.obs
     case = ctx.case
@@ -547,6 +628,9 @@ def mon_completion(ctx, res):
                f'{_case_str(case)}: running order reported completed (live={now}, after round trip={rt_completed}) although no roDelete was merged')
     if rt_cls != 'RunningOrder' and obs.after is not None:
         yield (f'{kind}:round-trip-class', f'{_case_str(case)}: serialised running order read back as {rt_cls}')
+
+
+mon_completion.touch_before = True
 
 
 def target_parse(ns, text):
@@ -766,8 +850,11 @@ class StateMonitor:
     """Checks an invariant on every expanded state and on every state discovered by a
     transition (so the last explored depth is covered too)."""
     _seen = None
+    # every read accessor of the running order is read once BEFORE each merge, and the invariant is
+    # then evaluated on the same live object AFTER it: an accessor that memoises is exposed
+    touch_before = True
 
-    def check(self, ns, text, view, res):
+    def check(self, ns, text, view, res, ro=None):
         return ()
 
     def state(self, ns, h, text, view, res):
@@ -791,7 +878,7 @@ class StateMonitor:
             return
         # preconditions of the accessor properties: stories have a storyID, items an itemID
         res.extra['states_checked_after_transition'] += 1
-        for sig, detail in self.check(ctx.ns, obs.after, av, res):
+        for sig, detail in self.check(ctx.ns, obs.after, av, res, ro=ctx.ro_obj):
             yield (f'{ctx.case["kind"]}>' + sig, f'after {_case_str(ctx.case)} on {_fmt(ctx.view.story_ids)}: ' + detail)
 
 
@@ -835,10 +922,14 @@ def _call(fn):
 class Accessors(StateMonitor):
     """C15: read accessors never raise and agree with the XML."""
 
-    def check(self, ns, text, view, res):
+    def check(self, ns, text, view, res, ro=None):
         from . import target
         res.extra['states_checked'] += 1
-        ro, e = target.parse(ns, text)
+        e = None
+        if ro is None:
+            ro, e = target.parse(ns, text)
+        else:
+            res.extra['live_objects_checked'] += 1
         if ro is None:
             yield ('STATE:unreadable', f'state does not parse: {e}')
             return
@@ -920,10 +1011,14 @@ class Accessors(StateMonitor):
 class Timing(StateMonitor):
     """C16: durations, offsets, start and end times."""
 
-    def check(self, ns, text, view, res):
+    def check(self, ns, text, view, res, ro=None):
         from . import target
         res.extra['states_checked'] += 1
-        ro, e = target.parse(ns, text)
+        e = None
+        if ro is None:
+            ro, e = target.parse(ns, text)
+        else:
+            res.extra['live_objects_checked'] += 1
         if ro is None:
             yield ('STATE:unreadable', f'state does not parse: {e}')
             return
@@ -1005,10 +1100,14 @@ def _body_of(se):
 class ScriptBody(StateMonitor):
     """C17: script and body."""
 
-    def check(self, ns, text, view, res):
+    def check(self, ns, text, view, res, ro=None):
         from . import target
         res.extra['states_checked'] += 1
-        ro, e = target.parse(ns, text)
+        e = None
+        if ro is None:
+            ro, e = target.parse(ns, text)
+        else:
+            res.extra['live_objects_checked'] += 1
         if ro is None:
             yield ('STATE:unreadable', f'state does not parse: {e}')
             return
